@@ -318,7 +318,10 @@ def run_c12(tier: str) -> int:
         for kind in ("local", "memory"):
             hs = gen_simulated(cap, kind, 14, nsim, seed + cap, "g12_%s_%d" % (kind, cap))
             if cap == 1 and (kind == "local" or tier == "thorough"):
-                hs += gen_exhaustive(cap, kind, 3 if tier == "quick" else 4, "g12e_" + kind)
+                ex = gen_exhaustive(cap, kind, 3 if tier == "quick" else 4, "g12e_" + kind)
+                # depth 4 gives ~100 k sequences per store kind: every third one (gc.collect() after
+                # every fetch makes a replay slow; the full set took over an hour)
+                hs += ex if tier == "quick" else ex[(seed % 3):: 3]
             for (i, h) in enumerate(hs):
                 ps = list(PATHSETS)[1]
                 tasks.append((kind, cap, h, ps, kind == "local"))   # wrapped
